@@ -518,7 +518,7 @@ package interpreter
 //@   ensures[C05.opcodeEqual] (=> (= err nil) (spec.stack_res_bytes t 2 (ite (= (old (spec.top_bytes t 0)) (old (spec.top_bytes t 1))) (b1 1) beps)))
 //@   ensures[C05.opcodeEqual_err] (= (= err nil) (>= (old (len (. t dstack stk))) 2))
 //@ func interpreter.opcodeEqualVerify
-//@   opt forall-patterns 1
+//@   opt index-fn 1
 //@   opt bytes-axioms 1
 //@   ensures[C05.opcodeEqualVerify_err] (= (= err nil) (and (>= (old (len (. t dstack stk))) 2) (= (old (spec.top_bytes t 0)) (old (spec.top_bytes t 1)))))
 //@   ensures[C05.opcodeEqualVerify] (=> (= err nil) (and (= (len (. t dstack stk)) (- (old (len (. t dstack stk))) 2)) (forall ((k Int)) (=> (and (<= 0 k) (< k (len (. t dstack stk)))) (= (at (. t dstack stk) k) (old (at (. t dstack stk) k)))))))
